@@ -1,9 +1,883 @@
-//! C18 — not implemented yet.
-use crate::ctx::Ctx;
+//! C18 — cloud operation helpers behave correctly under every sequence of failures.
+//!
+//! Real side: the real `retry_with_backoff`, `with_timeout`, `batch_in_chunks`, `paginate` and the
+//! wrappers of `helpers::cloud` driven by *scripted closures* (a closure that answers the next
+//! outcome of a script, counts its calls and records its arguments). Back-off delays are observed
+//! through the `verif_hooks::on_sleep` callback (delays are 0..3 ms so real sleeping is negligible).
+//!
+//! Requests (see `lean/IbModel/Driver/D18.lean` for the grammar):
+//!   RETRY <raw|run|cio|tr|ciotr|bld|exe> max=<n|-> init= cap= mult=<f64 bits> lim=<ms|-> d=<ms> s=<script>
+//!   BATCH <raw|run> n=<items> size=<s> f=<script>
+//!   PAGE <raw|run|cio> psize=<k> max=<m|-> p=<script>
+//!   TIMEOUT lim=<ms> el=<ms> r=<ok|Kind>
+//!   IOBATCH max= init= cap= mult= n=<items> s=<script>
+//!
+//! Oracles (independent of the Lean model; they restate the property on the observed calls):
+//! attempt count = min(1 + index of first Ok/permanent outcome, max(1,budget)); no call after a
+//! terminal outcome; returned outcome = outcome of the last call (value for value); every wait after
+//! the first <= cap (number and exact values of the waits: model correspondence only); chunks handed to the processor are non-empty,
+//! <= max(size,1), concatenate to a prefix of the items / all items, stop at the first failing
+//! chunk; pages are concatenated up to the first empty / final page / page limit, errors pass through;
+//! an Ok result that overran its limit is a Timeout error.
 
-pub fn run(cx: &mut Ctx) {
-    cx.notes.push("C18: harness not implemented".to_string());
+use crate::ctx::{Ctx, Tier, guarded};
+use ironbeam::helpers::cloud::{
+    BatchConfig, CloudIOExecutor, OperationBuilder, run_batch_operation, run_cloud_io_batch,
+    run_cloud_io_paginated, run_cloud_io_with_retry, run_cloud_io_with_retry_and_timeout,
+    run_paginated_operation, run_with_retry, run_with_timeout_and_retry,
+};
+use ironbeam::io::cloud::traits::{CloudIOError, CloudResult, ErrorKind};
+use ironbeam::io::cloud::utils::{
+    PaginationConfig, RetryConfig, batch_in_chunks, paginate, retry_with_backoff, with_timeout,
+};
+use std::cell::{Cell, RefCell};
+use std::sync::{Arc, Mutex, Once};
+use std::time::{Duration, Instant};
+
+// ---------------------------------------------------------------------------------------------
+// error kinds
+// ---------------------------------------------------------------------------------------------
+
+/// Every variant of `ErrorKind`, in declaration order. The `match` in `kind_index` has no wildcard,
+/// so a variant added to the real enum stops the harness from compiling (check broken, exit 2)
+/// instead of being silently ignored.
+fn all_kinds() -> Vec<ErrorKind> {
+    vec![
+        ErrorKind::Authentication,
+        ErrorKind::Authorization,
+        ErrorKind::NotFound,
+        ErrorKind::AlreadyExists,
+        ErrorKind::InvalidInput,
+        ErrorKind::Network,
+        ErrorKind::Timeout,
+        ErrorKind::ServiceUnavailable,
+        ErrorKind::RateLimited,
+        ErrorKind::InternalError,
+        ErrorKind::Other,
+    ]
+}
+fn kind_index(k: &ErrorKind) -> usize {
+    match k {
+        ErrorKind::Authentication => 0,
+        ErrorKind::Authorization => 1,
+        ErrorKind::NotFound => 2,
+        ErrorKind::AlreadyExists => 3,
+        ErrorKind::InvalidInput => 4,
+        ErrorKind::Network => 5,
+        ErrorKind::Timeout => 6,
+        ErrorKind::ServiceUnavailable => 7,
+        ErrorKind::RateLimited => 8,
+        ErrorKind::InternalError => 9,
+        ErrorKind::Other => 10,
+    }
+}
+fn kind_name(i: usize) -> String {
+    format!("{:?}", all_kinds()[i])
+}
+/// The property's (documented) notion of a transient failure — the ORACLE's table, deliberately not
+/// read from the code: "network issues, timeouts, service unavailable, rate limiting".
+const SPEC_TRANSIENT: [usize; 4] = [5, 6, 7, 8];
+fn spec_transient(k: usize) -> bool {
+    SPEC_TRANSIENT.contains(&k)
 }
 
-/// finite tables dumped from the running code (translator route); appended to Generated/Tables.lean
-pub fn tables(_out: &mut String) {}
+// ---------------------------------------------------------------------------------------------
+// sleep recorder (verif_hooks::on_sleep)
+// ---------------------------------------------------------------------------------------------
+
+static SLEEPS: Mutex<Vec<u64>> = Mutex::new(Vec::new());
+static INSTALL: Once = Once::new();
+fn install_sleep_hook() {
+    INSTALL.call_once(|| {
+        ironbeam::verif_hooks::set_sleep_callback(Some(Arc::new(|ms| {
+            SLEEPS.lock().unwrap().push(ms);
+        })));
+    });
+}
+fn take_sleeps() -> Vec<u64> {
+    std::mem::take(&mut *SLEEPS.lock().unwrap())
+}
+
+/// Translator route: which kinds does the RUNNING `retry_with_backoff` retry? Probed behaviourally:
+/// an operation that always fails with kind k, budget 2, is called twice iff k is retried.
+pub fn tables(out: &mut String) {
+    install_sleep_hook();
+    let kinds = all_kinds();
+    let names: Vec<String> = kinds.iter().map(|k| format!("\"{k:?}\"")).collect();
+    let mut transient: Vec<String> = vec![];
+    for k in &kinds {
+        let cfg = RetryConfig { max_attempts: 2, initial_delay_ms: 0, max_delay_ms: 0, backoff_multiplier: 1.0 };
+        let mut calls = 0u32;
+        let _ = retry_with_backoff(&cfg, || -> CloudResult<()> {
+            calls += 1;
+            Err(CloudIOError::new(k.clone(), "probe"))
+        });
+        if calls >= 2 {
+            transient.push((k.clone() as u8).to_string());
+        }
+    }
+    take_sleeps();
+    out.push_str("/-- C18: `traits.rs::ErrorKind` variants in declaration order (`format!(\"{:?}\")`) -/\n");
+    out.push_str(&format!("def errorKindNames : List String := [{}]\n", names.join(", ")));
+    out.push_str("/-- C18: `kind as u8` of the kinds the running `retry_with_backoff` retries (an always-failing\n    operation with budget 2 is called twice) -/\n");
+    out.push_str(&format!("def transientKinds : List Nat := [{}]\n\n", transient.join(", ")));
+}
+
+// ---------------------------------------------------------------------------------------------
+// scripted operation
+// ---------------------------------------------------------------------------------------------
+
+#[derive(Clone, Copy, PartialEq, Eq, Debug)]
+enum Oc {
+    Ok,
+    Err(usize),
+}
+impl Oc {
+    fn tok(&self) -> String {
+        match self {
+            Oc::Ok => "ok".into(),
+            Oc::Err(k) => kind_name(*k),
+        }
+    }
+    /// success or permanent error, by the property's table
+    fn terminal(&self) -> bool {
+        match self {
+            Oc::Ok => true,
+            Oc::Err(k) => !spec_transient(*k),
+        }
+    }
+}
+fn script_str(s: &[Oc]) -> String {
+    if s.is_empty() { "-".into() } else { s.iter().map(Oc::tok).collect::<Vec<_>>().join(",") }
+}
+fn nats(v: &[u64]) -> String {
+    if v.is_empty() { "-".into() } else { v.iter().map(|x| x.to_string()).collect::<Vec<_>>().join(",") }
+}
+
+struct Scripted {
+    script: Vec<Oc>,
+    calls: Cell<usize>,
+    exhausted: Cell<bool>,
+    d_ms: u64,
+}
+impl Scripted {
+    fn new(script: &[Oc], d_ms: u64) -> Self {
+        Scripted { script: script.to_vec(), calls: Cell::new(0), exhausted: Cell::new(false), d_ms }
+    }
+    fn call(&self) -> CloudResult<u64> {
+        let i = self.calls.get();
+        self.calls.set(i + 1);
+        if self.d_ms > 0 {
+            std::thread::sleep(Duration::from_millis(self.d_ms));
+        }
+        match self.script.get(i) {
+            None => {
+                self.exhausted.set(true);
+                Err(CloudIOError::new(ErrorKind::Other, "exhausted"))
+            }
+            Some(Oc::Ok) => Ok(i as u64),
+            Some(Oc::Err(k)) => Err(CloudIOError::new(all_kinds()[*k].clone(), format!("e{i}"))),
+        }
+    }
+}
+
+/// canonical form of an error: `ERR:<Kind>:<tag>` — tag = the index the scripted closure put in the
+/// message, `T` for the error `with_timeout` makes up
+fn err_str(e: &CloudIOError) -> String {
+    let tag = if let Some(rest) = e.message.strip_prefix('e') {
+        if !rest.is_empty() && rest.chars().all(|c| c.is_ascii_digit()) { rest.to_string() } else { "?".into() }
+    } else if e.message.starts_with("Operation exceeded timeout") {
+        "T".into()
+    } else {
+        "?".into()
+    };
+    format!("ERR:{:?}:{}", e.kind, tag)
+}
+fn res_str(r: &CloudResult<u64>) -> String {
+    match r {
+        Ok(v) => format!("OK:{v}"),
+        Err(e) => err_str(e),
+    }
+}
+fn list_res_str(r: &CloudResult<Vec<u64>>) -> String {
+    match r {
+        Ok(v) => format!("OK:{}", nats(v)),
+        Err(e) => err_str(e),
+    }
+}
+
+#[derive(Clone, Copy)]
+struct RCfg {
+    max: u32,
+    init: u64,
+    cap: u64,
+    mult: f64,
+}
+impl RCfg {
+    fn real(&self) -> RetryConfig {
+        RetryConfig { max_attempts: self.max, initial_delay_ms: self.init, max_delay_ms: self.cap, backoff_multiplier: self.mult }
+    }
+}
+fn cfg_str(rc: Option<RCfg>) -> String {
+    match rc {
+        Some(c) => format!("max={} init={} cap={} mult={}", c.max, c.init, c.cap, c.mult.to_bits()),
+        None => "max=- init=0 cap=0 mult=0".into(),
+    }
+}
+
+const W_RETRY_ONLY: [&str; 3] = ["raw", "run", "cio"];
+
+/// One RETRY case. `to_model = false`: oracle only (used for the bulk of the thorough exhaustive block).
+fn one_retry(cx: &mut Ctx, w: &str, rc: Option<RCfg>, lim: Option<u64>, d: u64, script: &[Oc], to_model: bool) {
+    install_sleep_hook();
+    let mut tries = 0;
+    loop {
+        tries += 1;
+        let s = Scripted::new(script, d);
+        take_sleeps();
+        let t0 = Instant::now();
+        let r: Result<CloudResult<u64>, String> = guarded(|| match (w, rc, lim) {
+            ("raw", Some(c), None) => retry_with_backoff(&c.real(), || s.call()),
+            ("run", Some(c), None) => run_with_retry(&c.real(), || s.call()),
+            ("cio", Some(c), None) => run_cloud_io_with_retry(&c.real(), || s.call()),
+            ("tr", Some(c), Some(t)) => run_with_timeout_and_retry(&c.real(), Duration::from_millis(t), || s.call()),
+            ("ciotr", Some(c), Some(t)) => {
+                run_cloud_io_with_retry_and_timeout(&c.real(), Duration::from_millis(t), || s.call())
+            }
+            ("bld", _, _) => {
+                let mut b = OperationBuilder::new();
+                if let Some(c) = rc { b = b.with_retry(c.real()); }
+                if let Some(t) = lim { b = b.with_timeout(Duration::from_millis(t)); }
+                b.execute(|| s.call())
+            }
+            ("exe", _, _) => {
+                let mut b = CloudIOExecutor::new();
+                if let Some(c) = rc { b = b.with_retry(c.real()); }
+                if let Some(t) = lim { b = b.with_timeout(Duration::from_millis(t)); }
+                b.execute(|| s.call())
+            }
+            _ => panic!("harness: bad wrapper combination"),
+        });
+        let outer_ms = t0.elapsed().as_millis() as u64;
+        let sleeps = take_sleeps();
+        let calls = s.calls.get();
+        let exhausted = s.exhausted.get();
+        let n = if exhausted { calls - 1 } else { calls };
+        let nominal: u64 = n as u64 * d + sleeps.iter().sum::<u64>();
+        // timing guard: the model's clock is the nominal one (scripted durations + sleeps); the real
+        // clock only ever runs later. If the run was nominally within the limit but the machine was so
+        // slow that it may have overrun, repeat the run (never observed more than once in a row).
+        if let Some(t) = lim {
+            if nominal == t {
+                cx.count("retry:timing-ambiguous(skipped)");
+                return;
+            }
+            if nominal < t && outer_ms + 1 >= t {
+                if tries < 4 { cx.count("retry:timing-rerun"); continue; }
+                cx.count("retry:timing-unstable(skipped)");
+                return;
+            }
+        }
+        let out = match &r {
+            Err(_) => "PANIC".to_string(),
+            Ok(_) if exhausted => "EXH".to_string(),
+            Ok(x) => res_str(x),
+        };
+        let answer = format!("n={n} out={out} sl={}", nats(&sleeps));
+        let req = format!(
+            "RETRY {w} {} lim={} d={d} s={}",
+            cfg_str(rc),
+            lim.map_or("-".to_string(), |t| t.to_string()),
+            script_str(script)
+        );
+        // ---- oracle ----
+        let budget = rc.map_or(1usize, |c| (c.max as usize).max(1));
+        let first_term = script.iter().position(Oc::terminal);
+        let n_exp = first_term.map_or(budget, |i| (i + 1).min(budget));
+        let mut fails: Vec<(&str, String)> = vec![];
+        if r.is_err() {
+            fails.push(("retry-panicked", format!("{r:?}")));
+        } else if n_exp > script.len() {
+            // the script is too short for the loop to finish: the closure must have been asked once more
+            if !exhausted || n != script.len() {
+                fails.push(("retry-stopped-early", format!("script of {} transient outcomes, budget {budget}, but {calls} calls", script.len())));
+            }
+            cx.count("retry:script-exhausted");
+        } else {
+            if n > budget { fails.push(("retry-too-many-attempts", format!("{n} calls, budget max(1,{})", budget))); }
+            if let Some(i) = first_term { if n > i + 1 { fails.push(("retry-called-after-terminal", format!("{n} calls, outcome {i} was terminal"))); } }
+            if n < n_exp { fails.push(("retry-stopped-early", format!("{n} calls, expected {n_exp}"))); }
+            if n >= 1 && n <= script.len() && !exhausted {
+                let last = script[n - 1];
+                let want = match last {
+                    Oc::Ok => match lim {
+                        Some(t) if nominal > t => "ERR:Timeout:T".to_string(),
+                        _ => format!("OK:{}", n - 1),
+                    },
+                    Oc::Err(k) => format!("ERR:{}:{}", kind_name(k), n - 1),
+                };
+                if out != want {
+                    let sig = if want == "ERR:Timeout:T" { "timeout-not-reported" }
+                        else if out == "ERR:Timeout:T" { "timeout-spurious" }
+                        else { "retry-wrong-outcome" };
+                    fails.push((sig, format!("returned {out}, the last attempt produced {want}")));
+                }
+            } else if exhausted {
+                fails.push(("retry-too-many-attempts", format!("closure called beyond the point where the loop must stop ({calls} calls)")));
+            }
+            // the property only bounds the waits "once backed off" (every wait after the first); the exact
+            // number and values of the waits are compared with the model, not judged here
+            if let Some(c) = rc {
+                if let Some(bad) = sleeps.iter().skip(1).find(|x| **x > c.cap) {
+                    fails.push(("retry-sleep-exceeds-cap", format!("slept {bad} ms, cap {} ms", c.cap)));
+                }
+            }
+        }
+        cx.count(&format!("retry:w={w}"));
+        cx.count(&format!("retry:attempts={}", n.min(9)));
+        cx.count(match out.split(':').next().unwrap_or("") { "OK" => "retry:out=ok", "ERR" => "retry:out=err", "EXH" => "retry:out=exhausted", _ => "retry:out=panic" });
+        if to_model || !fails.is_empty() {
+            let nt = script.len() >= 2 && n >= 2;
+            let i = cx.case(req, answer, nt);
+            for (sig, detail) in fails { cx.oracle_fail(i, sig, detail); }
+        } else {
+            cx.count("retry:oracle-only(not sent to the model)");
+        }
+        return;
+    }
+}
+
+fn one_iobatch(cx: &mut Ctx, c: RCfg, n_items: usize, script: &[Oc]) {
+    install_sleep_hook();
+    let s = Scripted::new(script, 0);
+    let items: Vec<u64> = (0..n_items as u64).collect();
+    let seen: RefCell<Vec<u64>> = RefCell::new(vec![]);
+    take_sleeps();
+    let r = guarded(|| {
+        run_cloud_io_batch(&c.real(), &items, |it: &u64| {
+            seen.borrow_mut().push(*it);
+            s.call()
+        })
+    });
+    let sleeps = take_sleeps();
+    let exhausted = s.exhausted.get();
+    let mut calls = seen.borrow().clone();
+    if exhausted { calls.pop(); }
+    let out = match &r {
+        Err(_) => "PANIC".to_string(),
+        Ok(_) if exhausted => "EXH".to_string(),
+        Ok(x) => list_res_str(x),
+    };
+    let answer = format!("calls={} sl={} out={out}", nats(&calls), nats(&sleeps));
+    let req = format!("IOBATCH {} n={n_items} s={}", cfg_str(Some(c)), script_str(script));
+    // ---- oracle: replay the property item by item on the script ----
+    let budget = (c.max as usize).max(1);
+    let mut pos = 0usize;
+    let mut want_calls: Vec<u64> = vec![];
+    let mut want_vals: Vec<u64> = vec![];
+    let mut want_out: Option<String> = None; // None = ran off the script
+    let mut ran_off = false;
+    'items: for it in &items {
+        let mut made = 0usize;
+        loop {
+            if pos >= script.len() { ran_off = true; break 'items; }
+            let o = script[pos];
+            want_calls.push(*it);
+            pos += 1;
+            made += 1;
+            match o {
+                Oc::Ok => { want_vals.push((pos - 1) as u64); break; }
+                Oc::Err(k) => {
+                    if !spec_transient(k) || made >= budget {
+                        want_out = Some(format!("ERR:{}:{}", kind_name(k), pos - 1));
+                        break 'items;
+                    }
+                }
+            }
+        }
+    }
+    let want_out = if ran_off { "EXH".to_string() } else { want_out.unwrap_or(format!("OK:{}", nats(&want_vals))) };
+    let nt = n_items >= 2 && script.len() >= 2;
+    let i = cx.case(req, answer, nt);
+    cx.count(&format!("iobatch:items={n_items}"));
+    if r.is_err() {
+        cx.oracle_fail(i, "iobatch-panicked", format!("{r:?}"));
+    } else {
+        if calls != want_calls {
+            cx.oracle_fail(i, "iobatch-wrong-calls", format!("operation called for items {calls:?}, expected {want_calls:?}"));
+        }
+        if out != want_out {
+            cx.oracle_fail(i, "iobatch-wrong-outcome", format!("returned {out}, expected {want_out}"));
+        }
+        if sleeps.iter().any(|x| *x > c.cap.max(c.init)) {
+            cx.oracle_fail(i, "retry-sleep-exceeds-cap", format!("sleeps {sleeps:?}"));
+        }
+    }
+}
+
+// ---------------------------------------------------------------------------------------------
+// batch
+// ---------------------------------------------------------------------------------------------
+
+#[derive(Clone, Copy, PartialEq, Eq, Debug)]
+enum Pr {
+    Ok,
+    Dup,
+    Nil,
+    Err(usize),
+}
+impl Pr {
+    fn tok(&self) -> String {
+        match self {
+            Pr::Ok => "ok".into(),
+            Pr::Dup => "dup".into(),
+            Pr::Nil => "nil".into(),
+            Pr::Err(k) => kind_name(*k),
+        }
+    }
+}
+fn proc_answer(p: Pr, i: usize, chunk: &[u64]) -> CloudResult<Vec<u64>> {
+    match p {
+        Pr::Ok => Ok(chunk.iter().map(|x| x + 100).collect()),
+        Pr::Dup => Ok(chunk.iter().flat_map(|x| [x + 100, x + 100]).collect()),
+        Pr::Nil => Ok(vec![]),
+        Pr::Err(k) => Err(CloudIOError::new(all_kinds()[k].clone(), format!("e{i}"))),
+    }
+}
+
+fn one_batch(cx: &mut Ctx, w: &str, n_items: usize, size: usize, fscript: &[Pr]) {
+    let items: Vec<u64> = (0..n_items as u64).collect();
+    let calls: Mutex<Vec<Vec<u64>>> = Mutex::new(vec![]);
+    let r = guarded(|| {
+        let proc_ = |chunk: Vec<u64>| -> CloudResult<Vec<u64>> {
+            let mut g = calls.lock().unwrap();
+            let i = g.len();
+            g.push(chunk.clone());
+            drop(g);
+            proc_answer(fscript.get(i).copied().unwrap_or(Pr::Ok), i, &chunk)
+        };
+        match w {
+            "raw" => batch_in_chunks(&items, size, proc_),
+            "run" => run_batch_operation(&items, &BatchConfig { chunk_size: size, parallel: false }, proc_),
+            _ => panic!("harness: bad batch wrapper"),
+        }
+    });
+    let calls = calls.into_inner().unwrap_or_else(|e| e.into_inner());
+    let calls_s = if calls.is_empty() { "-".to_string() } else { calls.iter().map(|c| nats(c)).collect::<Vec<_>>().join("|") };
+    let res = match &r {
+        Err(_) => "PANIC".to_string(),
+        Ok(x) => list_res_str(x),
+    };
+    let fs = if fscript.is_empty() { "-".to_string() } else { fscript.iter().map(Pr::tok).collect::<Vec<_>>().join(",") };
+    let req = format!("BATCH {w} n={n_items} size={size} f={fs}");
+    let answer = if r.is_err() { "PANIC".to_string() } else { format!("calls={calls_s} res={res}") };
+    let i = cx.case(req, answer, n_items >= 2 && size != 1);
+    cx.count(&format!("batch:size={}", size.min(10)));
+    cx.count(&format!("batch:items={}", n_items.min(10)));
+    // ---- oracle ----
+    if let Err(msg) = &r {
+        let sig = if size == 0 { "batch-panics-on-chunk-size-0" } else { "batch-panicked" };
+        cx.oracle_fail(i, sig, format!("{msg}"));
+        return;
+    }
+    let lim = size.max(1);
+    if let Some(c) = calls.iter().find(|c| c.is_empty() || c.len() > lim) {
+        cx.oracle_fail(i, "batch-chunk-too-large-or-empty", format!("chunk {c:?} for requested size {size}"));
+    }
+    let flat: Vec<u64> = calls.iter().flatten().copied().collect();
+    if flat.len() > items.len() || flat[..] != items[..flat.len()] {
+        cx.oracle_fail(i, "batch-items-not-in-order-exactly-once", format!("processor saw {flat:?}"));
+    }
+    let n_chunks = n_items.div_ceil(lim);
+    let first_fail = fscript.iter().take(n_chunks).position(|p| matches!(p, Pr::Err(_)));
+    match first_fail {
+        Some(j) => {
+            cx.count("batch:with-failing-chunk");
+            let Pr::Err(k) = fscript[j] else { unreachable!() };
+            let want = format!("ERR:{}:{j}", kind_name(k));
+            if calls.len() != j + 1 {
+                cx.oracle_fail(i, "batch-did-not-stop-at-first-failing-chunk", format!("{} chunks processed, chunk {j} fails", calls.len()));
+            }
+            if res != want {
+                cx.oracle_fail(i, "batch-wrong-error", format!("returned {res}, chunk {j} failed with {want}"));
+            }
+        }
+        None => {
+            if flat != items {
+                cx.oracle_fail(i, "batch-item-lost", format!("processor saw {flat:?} of {n_items} items"));
+            }
+            let want: Vec<u64> = calls.iter().enumerate()
+                .flat_map(|(j, c)| proc_answer(fscript.get(j).copied().unwrap_or(Pr::Ok), j, c).unwrap())
+                .collect();
+            if res != format!("OK:{}", nats(&want)) {
+                cx.oracle_fail(i, "batch-wrong-result", format!("returned {res}, concatenation of the processor's answers is {want:?}"));
+            }
+        }
+    }
+}
+
+// ---------------------------------------------------------------------------------------------
+// pagination
+// ---------------------------------------------------------------------------------------------
+
+#[derive(Clone, Copy, PartialEq, Eq, Debug)]
+enum Pg {
+    Page(usize, bool),
+    Err(usize),
+}
+impl Pg {
+    fn tok(&self) -> String {
+        match self {
+            Pg::Page(n, m) => format!("{n}{}", if *m { "T" } else { "F" }),
+            Pg::Err(k) => kind_name(*k),
+        }
+    }
+}
+fn page_items(j: usize, len: usize) -> Vec<u64> {
+    (0..len as u64).map(|x| x + j as u64 * 100).collect()
+}
+
+fn one_page(cx: &mut Ctx, w: &str, psize: u32, max_pages: Option<u32>, script: &[Pg]) {
+    let args: RefCell<Vec<(u32, u32)>> = RefCell::new(vec![]);
+    let exhausted = Cell::new(false);
+    let cfg = PaginationConfig { page_size: psize, max_pages };
+    let r = guarded(|| {
+        let fetch = |page: u32, size: u32| -> CloudResult<(Vec<u64>, bool)> {
+            let j = args.borrow().len();
+            args.borrow_mut().push((page, size));
+            match script.get(j) {
+                None => {
+                    exhausted.set(true);
+                    Err(CloudIOError::new(ErrorKind::Other, "exhausted"))
+                }
+                Some(Pg::Page(len, more)) => Ok((page_items(j, *len), *more)),
+                Some(Pg::Err(k)) => Err(CloudIOError::new(all_kinds()[*k].clone(), format!("e{j}"))),
+            }
+        };
+        match w {
+            "raw" => paginate(&cfg, fetch),
+            "run" => run_paginated_operation(&cfg, fetch),
+            "cio" => run_cloud_io_paginated(&cfg, fetch),
+            _ => panic!("harness: bad page wrapper"),
+        }
+    });
+    let mut calls = args.borrow().clone();
+    if exhausted.get() { calls.pop(); }
+    let calls_s = if calls.is_empty() { "-".to_string() } else { calls.iter().map(|(p, s)| format!("{p}:{s}")).collect::<Vec<_>>().join(",") };
+    let out = match &r {
+        Err(_) => "PANIC".to_string(),
+        Ok(_) if exhausted.get() => "EXH".to_string(),
+        Ok(x) => list_res_str(x),
+    };
+    let ps = if script.is_empty() { "-".to_string() } else { script.iter().map(Pg::tok).collect::<Vec<_>>().join(",") };
+    let req = format!("PAGE {w} psize={psize} max={} p={ps}", max_pages.map_or("-".to_string(), |m| m.to_string()));
+    let i = cx.case(req, format!("calls={calls_s} out={out}"), script.len() >= 2 && calls.len() >= 2);
+    cx.count(&format!("page:fetched={}", calls.len().min(9)));
+    // ---- oracle: concatenate up to the first empty page, the first final page, or the page limit ----
+    let mut acc: Vec<u64> = vec![];
+    let mut want: Option<String> = None;
+    let mut fetched = 0usize;
+    for (j, p) in script.iter().enumerate() {
+        fetched = j + 1;
+        match p {
+            Pg::Err(k) => { want = Some(format!("ERR:{}:{j}", kind_name(*k))); cx.count("page:stop=error"); break; }
+            Pg::Page(0, _) => { want = Some(format!("OK:{}", nats(&acc))); cx.count("page:stop=empty"); break; }
+            Pg::Page(len, more) => {
+                acc.extend(page_items(j, *len));
+                if !*more { want = Some(format!("OK:{}", nats(&acc))); cx.count("page:stop=final"); break; }
+                if let Some(m) = max_pages {
+                    if j + 1 >= (m as usize).max(1) { want = Some(format!("OK:{}", nats(&acc))); cx.count("page:stop=limit"); break; }
+                }
+            }
+        }
+    }
+    if r.is_err() {
+        cx.oracle_fail(i, "page-panicked", format!("{r:?}"));
+        return;
+    }
+    match want {
+        None => {
+            cx.count("page:script-exhausted");
+            if out != "EXH" { cx.oracle_fail(i, "page-stopped-early", format!("no page of the script ends the listing, yet {out}")); }
+        }
+        Some(wanted) => {
+            if out != wanted {
+                let sig = if out == "EXH" || calls.len() > fetched { "page-fetched-beyond-stop" } else { "page-wrong-result" };
+                cx.oracle_fail(i, sig, format!("returned {out}, expected {wanted}"));
+            }
+            if calls.len() != fetched {
+                cx.oracle_fail(i, "page-wrong-number-of-fetches", format!("{} fetches, expected {fetched}", calls.len()));
+            }
+        }
+    }
+    if calls.iter().enumerate().any(|(j, (p, s))| *p as usize != j || *s != psize) {
+        cx.oracle_fail(i, "page-wrong-arguments", format!("fetch_page called with {calls:?}, page size {psize}"));
+    }
+}
+
+// ---------------------------------------------------------------------------------------------
+// with_timeout alone
+// ---------------------------------------------------------------------------------------------
+
+fn one_timeout(cx: &mut Ctx, lim: u64, el: u64, r_in: Oc) {
+    assert!(lim != el);
+    for attempt in 0..4 {
+        let t0 = Instant::now();
+        let r = guarded(|| {
+            with_timeout(Duration::from_millis(lim), || -> CloudResult<u64> {
+                if el > 0 { std::thread::sleep(Duration::from_millis(el)); }
+                match r_in {
+                    Oc::Ok => Ok(0),
+                    Oc::Err(k) => Err(CloudIOError::new(all_kinds()[k].clone(), "e0")),
+                }
+            })
+        });
+        let outer = t0.elapsed().as_millis() as u64;
+        if el < lim && outer + 1 >= lim {
+            if attempt < 3 { cx.count("timeout:timing-rerun"); continue; }
+            cx.count("timeout:timing-unstable(skipped)");
+            return;
+        }
+        let out = match &r { Err(_) => "PANIC".to_string(), Ok(x) => res_str(x) };
+        let i = cx.case(format!("TIMEOUT lim={lim} el={el} r={}", r_in.tok()), out.clone(), true);
+        let want = match r_in {
+            Oc::Err(k) => format!("ERR:{}:0", kind_name(k)),
+            Oc::Ok if el > lim => "ERR:Timeout:T".to_string(),
+            Oc::Ok => "OK:0".to_string(),
+        };
+        cx.count(if el > lim { "timeout:overrun" } else { "timeout:within" });
+        if out != want {
+            let sig = if want == "ERR:Timeout:T" { "timeout-not-reported" } else if out == "ERR:Timeout:T" { "timeout-spurious" } else { "timeout-wrong-outcome" };
+            cx.oracle_fail(i, sig, format!("returned {out}, expected {want}"));
+        }
+        return;
+    }
+}
+
+// ---------------------------------------------------------------------------------------------
+// generators
+// ---------------------------------------------------------------------------------------------
+
+fn all_outcomes() -> Vec<Oc> {
+    let mut v = vec![Oc::Ok];
+    for k in 0..all_kinds().len() { v.push(Oc::Err(k)); }
+    v
+}
+
+/// visit every sequence over `alpha` of length <= max_len
+fn for_all_seqs<T: Copy>(alpha: &[T], max_len: usize, f: &mut dyn FnMut(&[T])) {
+    fn rec<T: Copy>(alpha: &[T], max_len: usize, cur: &mut Vec<T>, f: &mut dyn FnMut(&[T])) {
+        f(cur);
+        if cur.len() == max_len { return; }
+        for x in alpha {
+            cur.push(*x);
+            rec(alpha, max_len, cur, f);
+            cur.pop();
+        }
+    }
+    rec(alpha, max_len, &mut vec![], f);
+}
+
+const MULTS: [f64; 8] = [2.0, 1.5, 3.0, 1.0, f64::NAN, 1.9999999999999998, -2.0, f64::INFINITY];
+
+pub fn run(cx: &mut Ctx) {
+    install_sleep_hook();
+    let zero = |max: u32| RCfg { max, init: 0, cap: 0, mult: 2.0 };
+    let net = Oc::Err(5);
+
+    // ---- (1) corpus: design witnesses / minimised past failures ----
+    one_batch(cx, "run", 3, 0, &[]); // chunk_size 0 through the public BatchConfig (panicked before the fix)
+    one_batch(cx, "raw", 0, 0, &[]);
+    one_batch(cx, "run", 5, 2, &[Pr::Ok, Pr::Err(2)]);
+    one_retry(cx, "run", Some(zero(0)), None, 0, &[net, Oc::Ok], true); // budget 0 behaves as 1
+    one_retry(cx, "run", Some(RCfg { max: 5, init: 3, cap: 1, mult: 2.0 }), None, 0, &[net, net, net, Oc::Ok], true); // initial delay above the cap
+    one_retry(cx, "run", Some(RCfg { max: 4, init: 1, cap: 3, mult: 1.5 }), None, 0, &[net, net, net, Oc::Ok], true); // multiplier < 2: no growth
+    one_retry(cx, "bld", Some(zero(3)), Some(10_000), 0, &[Oc::Err(6), Oc::Err(8), Oc::Err(2)], true);
+    one_retry(cx, "exe", None, Some(1), 6, &[Oc::Ok], true); // overrun without retry
+    one_page(cx, "run", 10, None, &[Pg::Page(2, true), Pg::Page(0, true), Pg::Page(1, false)]); // has_more lies before an empty page
+    one_page(cx, "raw", 10, Some(0), &[Pg::Page(1, true), Pg::Page(1, true)]); // limit 0 still fetches one page
+    one_page(cx, "cio", 10, Some(2), &[Pg::Page(1, true), Pg::Page(1, true), Pg::Page(1, true)]);
+    one_iobatch(cx, RCfg { max: 2, init: 1, cap: 1, mult: 0.0 }, 3, &[net, Oc::Ok, Oc::Ok, net, net]);
+
+    // ---- (2) exhaustive small scope ----
+    let outcomes = all_outcomes();
+    let max_len = match cx.tier { Tier::Quick => 3, Tier::Thorough => 5, Tier::Search => 4 };
+    // in the thorough tier every script is run on the real code and judged by the oracle; the model is
+    // asked about all scripts of length <= 4 and, at length 5, about those in which nothing follows
+    // the first terminal outcome (the closure never reveals what it would have answered after it)
+    let model_len = 4usize;
+    {
+        let mut n_scripts = 0usize;
+        let mut scripts: Vec<Vec<Oc>> = vec![];
+        for_all_seqs(&outcomes, max_len, &mut |s| scripts.push(s.to_vec()));
+        for s in &scripts {
+            n_scripts += 1;
+            let canonical = s.iter().position(Oc::terminal).map_or(true, |i| i + 1 == s.len());
+            let to_model = s.len() <= model_len || canonical;
+            for max in 0..=6u32 {
+                one_retry(cx, "run", Some(zero(max)), None, 0, s, to_model);
+                one_retry(cx, "bld", Some(zero(max)), None, 0, s, to_model);
+                one_retry(cx, "exe", Some(zero(max)), None, 0, s, to_model);
+                if s.len() <= model_len {
+                    // per-item batch wrapper: the same script spread over 2 items
+                    one_iobatch(cx, zero(max), 2, s);
+                }
+            }
+        }
+        cx.exhaustive_blocks.push(format!(
+            "retry: all {n_scripts} outcome scripts of length <= {max_len} over {{Ok, 4 transient, 7 permanent kinds}} x max_attempts 0..6 x wrappers run_with_retry / OperationBuilder / CloudIOExecutor (+ run_cloud_io_batch over 2 items for length <= {model_len}); zero delays"
+        ));
+    }
+    {
+        // the other entry points on all scripts of length <= 2 (<= 3 thorough), with and without a (huge) timeout
+        let l2 = match cx.tier { Tier::Quick => 2, _ => 3 };
+        let mut scripts: Vec<Vec<Oc>> = vec![];
+        for_all_seqs(&outcomes, l2, &mut |s| scripts.push(s.to_vec()));
+        for s in &scripts {
+            for max in [0u32, 1, 2, 3] {
+                for w in W_RETRY_ONLY { one_retry(cx, w, Some(zero(max)), None, 0, s, true); }
+                for w in ["tr", "ciotr", "bld", "exe"] { one_retry(cx, w, Some(zero(max)), Some(60_000), 0, s, true); }
+            }
+            for w in ["bld", "exe"] {
+                one_retry(cx, w, None, None, 0, s, true);
+                one_retry(cx, w, None, Some(60_000), 0, s, true);
+            }
+        }
+        cx.exhaustive_blocks.push(format!(
+            "retry: all {} scripts of length <= {l2} x max_attempts {{0,1,2,3}} x retry_with_backoff / run_cloud_io_with_retry / run_with_timeout_and_retry / run_cloud_io_with_retry_and_timeout / builder+executor with timeout and without retry", scripts.len()
+        ));
+    }
+    {
+        // delays: all-transient prefixes, every small (initial, cap), the multiplier classes
+        let inits: Vec<u64> = if cx.tier != Tier::Thorough { vec![0, 1, 2] } else { vec![0, 1, 2, 3] };
+        let caps: Vec<u64> = if cx.tier != Tier::Thorough { vec![0, 1, 3] } else { vec![0, 1, 2, 3] };
+        let mults: Vec<f64> = if cx.tier != Tier::Thorough { vec![2.0, 1.5, f64::NAN, 1.9999999999999998] } else { MULTS.to_vec() };
+        let maxes: Vec<u32> = if cx.tier != Tier::Thorough { vec![0, 2, 4, 6] } else { (0..=6).collect() };
+        let tails: Vec<usize> = if cx.tier != Tier::Thorough { vec![2, 5] } else { vec![0, 1, 2, 3, 5] };
+        let mut cnt = 0;
+        for &init in &inits { for &cap in &caps { for &mult in &mults { for &max in &maxes { for &k in &tails {
+            let mut s: Vec<Oc> = (0..k).map(|j| Oc::Err(SPEC_TRANSIENT[j % 4])).collect();
+            s.push(if (k + max as usize) % 3 == 0 { Oc::Err(9) } else { Oc::Ok });
+            let w = ["raw", "run", "bld", "exe", "cio"][cnt % 5];
+            one_retry(cx, w, Some(RCfg { max, init, cap, mult }), None, 0, &s, true);
+            cnt += 1;
+        }}}}}
+        cx.exhaustive_blocks.push(format!(
+            "retry delays: initial {inits:?} x cap {caps:?} ms x {} multiplier classes (>=2, <2, NaN, just below 2, ...) x max_attempts {maxes:?} x transient prefixes {tails:?} ({cnt} cases)", mults.len()
+        ));
+    }
+    {
+        // batch: items 0..8 x chunk size 0..9 x failing chunk index (none, each chunk) x both entry points
+        let mut cnt = 0;
+        for n in 0..=8usize {
+            for size in 0..=9usize {
+                let n_chunks = n.div_ceil(size.max(1));
+                for w in ["raw", "run"] {
+                    one_batch(cx, w, n, size, &[]);
+                    cnt += 1;
+                    for j in 0..=n_chunks { // j == n_chunks: the failure is scripted beyond the last chunk
+                        let mut f = vec![Pr::Ok; j];
+                        f.push(Pr::Err((j + n + size) % 11));
+                        one_batch(cx, w, n, size, &f);
+                        cnt += 1;
+                    }
+                }
+            }
+        }
+        cx.exhaustive_blocks.push(format!("batch: items 0..8 x chunk size 0..9 x failing chunk (none, every index, one past the end) x batch_in_chunks / run_batch_operation ({cnt} cases)"));
+    }
+    {
+        // pagination: every page script over {empty, 1, 2 items} x has_more x {permanent, transient error}
+        let alpha = [Pg::Page(0, true), Pg::Page(0, false), Pg::Page(1, true), Pg::Page(1, false), Pg::Page(2, true), Pg::Page(2, false), Pg::Err(2), Pg::Err(5)];
+        let pl = match cx.tier { Tier::Quick => 4, Tier::Thorough => 5, Tier::Search => 4 };
+        let mut scripts: Vec<Vec<Pg>> = vec![];
+        for_all_seqs(&alpha, pl, &mut |s| scripts.push(s.to_vec()));
+        let mut cnt = 0usize;
+        for s in &scripts {
+            for mp in [None, Some(0u32), Some(1), Some(2), Some(3), Some(4), Some(6)] {
+                let w = ["raw", "run", "cio"][cnt % 3];
+                one_page(cx, w, 1 + (cnt % 4) as u32, mp, s);
+                cnt += 1;
+            }
+        }
+        cx.exhaustive_blocks.push(format!("pagination: all {} page scripts of length <= {pl} over {{0,1,2 items}} x has_more x {{NotFound, Network}} errors x max_pages {{None,0,1,2,3,4,6}} ({cnt} cases)", scripts.len()));
+    }
+    {
+        // with_timeout alone: every outcome kind, within / over the limit (wide margins)
+        for o in &outcomes {
+            one_timeout(cx, 60_000, 0, *o);
+            one_timeout(cx, 1, 5, *o);
+            one_timeout(cx, 0, 2, *o);
+        }
+        // timeout around a retry whose total time depends on the number of attempts: 40 ms per call, limit 100 ms
+        let slow: Vec<Vec<Oc>> = vec![
+            vec![Oc::Ok], vec![net, Oc::Ok], vec![net, net, Oc::Ok], vec![net, net, Oc::Err(2)], vec![net, net, net],
+        ];
+        for (j, s) in slow.iter().enumerate() {
+            let w = ["tr", "ciotr", "bld", "exe"][j % 4];
+            one_retry(cx, w, Some(zero(3)), Some(100), 40, s, true);
+            one_retry(cx, w, Some(zero(5)), Some(1), 3, s, true);
+        }
+        for w in ["bld", "exe"] {
+            one_retry(cx, w, None, Some(1), 4, &[Oc::Ok, Oc::Ok], true);
+            one_retry(cx, w, None, Some(1), 4, &[Oc::Err(5), Oc::Ok], true);
+            one_retry(cx, w, None, Some(60_000), 0, &[Oc::Ok], true);
+        }
+        cx.exhaustive_blocks.push("timeout: with_timeout on all 12 outcomes x {within, overrun, zero limit}; retry+timeout with 40 ms calls against a 100 ms limit (1, 2, 3 attempts)".into());
+    }
+
+    // ---- (3) random block: longer scripts, bigger budgets, all wrappers, small real delays ----
+    let rounds = cx.budget(1500, 20000);
+    for _ in 0..rounds {
+        let len = cx.rng.below(13);
+        let p_ok = cx.rng.below(4);
+        let script: Vec<Oc> = (0..len).map(|_| {
+            let r = cx.rng.below(10);
+            if r < p_ok { Oc::Ok } else if r < 8 { Oc::Err(SPEC_TRANSIENT[cx.rng.below(4)]) } else { Oc::Err(cx.rng.below(11)) }
+        }).collect();
+        let max = *cx.rng.pick(&[0u32, 1, 2, 3, 4, 5, 6, 8, 12, 1000, u32::MAX]);
+        let slow = cx.rng.chance(1, 12);
+        let c = RCfg {
+            max,
+            init: if slow { cx.rng.below(4) as u64 } else { 0 },
+            cap: if slow { cx.rng.below(4) as u64 } else { *cx.rng.pick(&[0u64, 0, 5, u64::MAX]) },
+            mult: *cx.rng.pick(&MULTS),
+        };
+        let c = if !slow { RCfg { init: 0, ..c } } else { c };
+        match cx.rng.below(8) {
+            0 => one_retry(cx, "raw", Some(c), None, 0, &script, true),
+            1 => one_retry(cx, "run", Some(c), None, 0, &script, true),
+            2 => one_retry(cx, "cio", Some(c), None, 0, &script, true),
+            3 => { let w = *cx.rng.pick(&["tr", "ciotr"]); one_retry(cx, w, Some(c), Some(60_000), 0, &script, true) }
+            4 => {
+                let w = *cx.rng.pick(&["bld", "exe"]);
+                let rc = if cx.rng.chance(4, 5) { Some(c) } else { None };
+                let lim = if cx.rng.chance(1, 2) { Some(60_000) } else { None };
+                one_retry(cx, w, rc, lim, 0, &script, true)
+            }
+            _ => { let n = cx.rng.below(6); one_iobatch(cx, c, n, &script) }
+        }
+    }
+    let rounds = cx.budget(600, 8000);
+    for _ in 0..rounds {
+        let n = cx.rng.below(40);
+        let size = *cx.rng.pick(&[0usize, 1, 2, 3, 5, 7, 10, 39, 40, 41, 1000, usize::MAX]);
+        let flen = cx.rng.below(6);
+        let f: Vec<Pr> = (0..flen).map(|_| match cx.rng.below(8) { 0 => Pr::Dup, 1 => Pr::Nil, 2 => Pr::Err(cx.rng.below(11)), _ => Pr::Ok }).collect();
+        let w = *cx.rng.pick(&["raw", "run"]);
+        one_batch(cx, w, n, size, &f);
+    }
+    let rounds = cx.budget(600, 8000);
+    for _ in 0..rounds {
+        let len = cx.rng.below(10);
+        let script: Vec<Pg> = (0..len).map(|_| match cx.rng.below(12) {
+            0 => Pg::Err(cx.rng.below(11)),
+            1 => Pg::Page(0, cx.rng.chance(1, 2)),
+            _ => Pg::Page(1 + cx.rng.below(4), cx.rng.chance(5, 6)),
+        }).collect();
+        let mp = *cx.rng.pick(&[None, None, Some(0u32), Some(1), Some(2), Some(3), Some(5), Some(9), Some(u32::MAX)]);
+        let w = *cx.rng.pick(&["raw", "run", "cio"]);
+        let psize = *cx.rng.pick(&[0u32, 1, 10, 100, u32::MAX]);
+        one_page(cx, w, psize, mp, &script);
+    }
+}
